@@ -11,6 +11,7 @@ vars == <<e, n>>
 
 A0(c) == [c |-> c, k |-> <<>>]                 \* constant
 A1(c, v) == [c |-> c, k |-> [x \in {v} |-> 1]]   \* c/4 + v
+A2(c, v, sl) == [c |-> c, k |-> [x \in {v} |-> sl]]   \* c/4 + sl * v
 V2(a, b) == <<A0(a), A0(b)>>
 \* ---- primitive pool (2-D over x; 1-D over u; 3-D over y)
 Par(o, a, b) == [k |-> "par", v |-> "x", o |-> o, a |-> a, b |-> b]
@@ -24,6 +25,7 @@ Prims2 == { Par(V2(0, 0), V2(8, 0), V2(0, 8)),                       \* axis-ali
             Tri(V2(-10, -4), V2(6, -8), V2(2, 10)),                  \* slanted
             Tri(V2(-6, 6), V2(6, 6), V2(-6, -6)),                    \* clockwise vertices
             Tri(<<A0(-4), A1(-8, "k")>>, <<A0(8), A1(-8, "k")>>, <<A0(-4), A1(0, "k")>>),
+            Tri(V2(-4, 0), V2(4, 0), <<A0(0), A2(-6, "k", 2)>>),   \* apex (0, -3/2 + 2k): the vertex orientation flips between k = 0 and k >= 1
             Cir(V2(0, 0), A0(6)),
             Cir(V2(4, -2), A0(4)),
             Cir(<<A1(-4, "t"), A0(0)>>, A1(2, "k")) }                 \* centre moves with t, radius 1/2 + k
